@@ -4,6 +4,7 @@
 From Coq Require Import List Arith Bool.
 From LokyV Require Import Lib.LedgerLib Lib.PoolLib Gen.Ledger Gen.Pool Model.Pool Proofs.PoolThm.
 From LokyV Require Lib.WorkerLib Gen.Worker Proofs.WorkerThm.
+From LokyV Require Lib.ExitLib Gen.Exit Proofs.ExitThm.
 Import ListNotations.
 
 (* at every point of every interleaving of submit / shutdown / deaths / idle exits / completions with the manager walking its lists
@@ -68,3 +69,39 @@ Proof.
   repeat split; try assumption. apply WorkerThm.iteration_never_stuck.
 Qed.
 Print Assumptions C02_worker_never_leaves_silently.
+
+From Coq Require Import String ZArith.
+
+(* ---- the exit codes in the error (Gen/Exit.v: _get_exitcode_name and _format_exitcodes translated from loky/backend/utils.py) ----
+   the string put into the TerminatedWorkerError lists every exit code that is not None, in order, as NAME(code): the signal's name
+   for a negative code (UNKNOWN if the OS has no such signal), EXIT for a status other than 255, UNKNOWN for 255; sig is the OS's
+   table signal.Signals(n).name *)
+Theorem C02_error_names_every_exit_code :
+  forall (sig : BinNums.Z -> option String.string) (codes : list (option BinNums.Z)),
+    ExitThm.format_exitcodes sig codes
+    = String.append "{"%string (String.append (String.concat ", "%string (map (fun e => String.append (ExitThm.name sig e) (String.append "("%string (String.append (ExitLib.dec e) ")"%string)))
+                                                              (ExitLib.somes codes))) "}"%string).
+Proof. exact ExitThm.format_names_every_exit_code. Qed.
+Print Assumptions C02_error_names_every_exit_code.
+
+Theorem C02_exit_code_names :
+  forall (sig : BinNums.Z -> option String.string) (e : BinNums.Z),
+    (BinInt.Z.lt e BinNums.Z0 -> forall n, sig (BinInt.Z.opp e) = Some n -> ExitThm.name sig e = n) /\
+    (BinInt.Z.lt e BinNums.Z0 -> sig (BinInt.Z.opp e) = None -> ExitThm.name sig e = "UNKNOWN"%string) /\
+    (BinInt.Z.le BinNums.Z0 e -> e <> 255%Z -> ExitThm.name sig e = "EXIT"%string) /\
+    ExitThm.name sig 255%Z = "UNKNOWN"%string.
+Proof.
+  intros sig e. split; [|split; [|split]].
+  - intros H n S. apply ExitThm.name_of_a_signal; assumption.
+  - apply ExitThm.name_of_an_unknown_signal.
+  - apply ExitThm.name_of_an_exit_status.
+  - apply ExitThm.name_of_255.
+Qed.
+Print Assumptions C02_exit_code_names.
+
+(* the exit codes of all registered workers that have one are collected (bounded polling) and the string is part of the message *)
+Theorem C02_exit_codes_structure :
+  Exit.exit_codes_of_all_registered_workers_are_collected_with_bounded_polling = true /\ Exit.terminated_worker_error_names_the_exit_codes = true
+  /\ ExitLib.f_skips_none Exit.exitcodes_fmt = true.
+Proof. exact ExitThm.structure_ok. Qed.
+Print Assumptions C02_exit_codes_structure.
